@@ -219,47 +219,37 @@ def load_known():
     return json.load(open(p)).get("findings", [])
 
 
-def matches_known(pid, case, oracle_msgs, known):
-    for k in known:
-        if k.get("property") != pid or k.get("status") != "open":
-            continue
-        if re.search(k["case_regex"], case) and any(re.search(k["oracle_regex"], o) for o in oracle_msgs):
-            return k
-    return None
+def matches_known(pids, case, oracle_msgs, known):
+    """a case is covered by the known findings only if EVERY oracle message of it matches an open finding"""
+    first = None
+    for o in oracle_msgs:
+        hit = None
+        for k in known:
+            if k.get("property") not in pids or k.get("status") != "open":
+                continue
+            if re.search(k["case_regex"], case) and re.search(k["oracle_regex"], o):
+                hit = k
+                break
+        if hit is None:
+            return None
+        first = first or hit
+    return first
 
 
-def main():
-    args = sys.argv[1:]
-    if not args:
-        print(__doc__)
-        sys.exit(2)
-    pid = args[0]
-    tier = os.environ.get("VERIF_TIER", "quick")
-    replay = None
-    i = 1
-    while i < len(args):
-        if args[i] == "--tier":
-            tier = args[i + 1]
-            i += 2
-        elif args[i] == "--replay":
-            replay = args[i + 1]
-            i += 2
-        else:
-            i += 1
-    seed = int(os.environ.get("VERIF_SEED", "1"))
+def run_one(pid, report_pid, tier, seed, replay_payload):
+    """runs the whole pipeline of one (sub-)check; returns (exit_code, evidence dict, lines to print)"""
+    out_lines = []
     cfg = props.PROPS[pid]
     t0 = time.time()
     os.makedirs(os.path.join(SCRATCH, pid), exist_ok=True)
-    os.makedirs(os.path.join(ROOT, "evidence"), exist_ok=True)
 
     profiles = cfg.get("profiles", ["release"])
     bins = build_harness(profiles)
     pr = proofs(pid, tier)
 
     # cases
-    if replay:
-        rp = json.load(open(replay))
-        cases = rp.get("cases") or [rp["case"]]
+    if replay_payload is not None:
+        cases = replay_payload.get("cases") or [replay_payload["case"]]
     else:
         corpus = []
         cdir = os.path.join(ROOT, "corpus", pid)
@@ -274,15 +264,14 @@ def main():
         cases = corpus + [l for l in out.splitlines() if l.strip()]
 
     # model stream
-    model, _ = ({}, {})
+    model = {}
     if os.path.exists(DRIVER):
         model, _ = run_stream([DRIVER, pid], cases)
     impl = {}
     oracle = {}
+    for k_, v_ in cfg.get("env", {}).items():
+        os.environ[k_] = v_
     for prof in profiles:
-        env_extra = cfg.get("env", {})
-        for k_, v_ in env_extra.items():
-            os.environ[k_] = v_
         R, O = run_stream([bins[prof], "impl", pid], cases)
         impl[prof] = R
         for n, msgs in O.items():
@@ -317,34 +306,32 @@ def main():
     known = load_known()
     violations = []
     known_hits = []
-    # oracle failures: genuine failing inputs
     seen_known = set()
     for n in sorted(oracle):
-        k = matches_known(pid, cases[n], oracle[n], known)
+        k = matches_known((pid, report_pid), cases[n], oracle[n], known)
         if k:
             if k["id"] not in seen_known:
                 seen_known.add(k["id"])
                 known_hits.append((k, cases[n], oracle[n]))
             continue
         violations.append(("oracle", n))
-    fixed_msgs = []
 
     exit_code = 0
     if violations:
         n = violations[0][1]
-        path = write_replay(pid, "oracle", {
-            "property": pid, "kind": "implementation violates the property on this input",
+        path = write_replay(report_pid, "oracle", {
+            "property": report_pid, "check": pid, "kind": "implementation violates the property on this input",
             "case": cases[n], "oracle": oracle[n],
             "impl": {p: impl[p].get(n) for p in profiles}, "model": model.get(n),
             "all_failing_cases": [cases[m] for _, m in violations[:50]],
-            "replay_cmd": f"./check.py {pid} --replay <this file>",
+            "replay_cmd": f"./check.py {report_pid} --replay <this file>",
         })
-        log(f"VIOLATION property={pid} replay={path}")
+        out_lines.append(f"VIOLATION property={report_pid} replay={path}")
         exit_code = 1
     elif disagreements or pr["failures"] or pr["discharged"] != pr["obligations"] or pr["obligations"] == 0:
-        # proof or correspondence broke, the oracle found nothing
-        payload = {"property": pid, "kind": "proof obligation or correspondence no longer checks; "
-                   "no failing input found by the oracle on this run's cases"}
+        payload = {"property": report_pid, "check": pid,
+                   "kind": "proof obligation or correspondence no longer checks; "
+                           "no failing input found by the oracle on this run's cases"}
         if pr["failures"] or pr["discharged"] != pr["obligations"] or pr["obligations"] == 0:
             payload["proof_failures"] = pr["failures"] or ["not all obligations discharged"]
             payload["theorems"] = pr["theorems"]
@@ -356,52 +343,113 @@ def main():
             payload["model"] = b
             payload["n_disagreements"] = len(disagreements)
             payload["more_cases"] = [cases[m] for m, _, _, _ in disagreements[1:20]]
-        path = write_replay(pid, "tie", payload)
-        log(f"VIOLATION property={pid} replay={path} no-failing-input-found")
+        path = write_replay(report_pid, "tie", payload)
+        out_lines.append(f"VIOLATION property={report_pid} replay={path} no-failing-input-found")
         exit_code = 1
     for k, case, msgs in known_hits:
-        log(f"KNOWN-FINDING: property={pid} {k['id']}: {k['what']}")
+        out_lines.append(f"KNOWN-FINDING: property={report_pid} {k['id']}: {k['what']}")
 
     wall = round(time.time() - t0, 2)
-    level = cfg.get("level", "proof")
+    cov = {
+        "obligations": pr["obligations"],
+        "discharged": pr["discharged"],
+        "checker_cmd": pr["checker_cmd"],
+        "trusted_base": cfg.get("trusted_base", []),
+        "theorems": pr["theorems"],
+        "axioms_per_theorem": pr["axioms"],
+        "lake_build_s": pr.get("lake_build_s"),
+        "evaluations": len(cases) * len(profiles),
+        "distinct_nontrivial": len(distinct),
+        "rule": cfg.get("rule", ""),
+        "samples": samples,
+        "disagreements_checked": len(disagreements),
+        "oracle_failures": len(oracle),
+        "known_findings_matched": [k["id"] for k, _, _ in known_hits],
+        "profiles": profiles,
+        "class_histogram": dict(sorted(hist.items(), key=lambda kv: -kv[1])[:60]),
+        "explanation": cfg.get("explanation", ""),
+    }
+    out_lines.append(
+        f"{pid} {tier}: obligations {pr['discharged']}/{pr['obligations']}, cases {len(cases)} x {len(profiles)} profile(s), "
+        f"disagreements {len(disagreements)}, oracle failures {len(oracle)}, {wall}s -> {'FAIL' if exit_code else 'ok'}")
+    return exit_code, cov, cfg, out_lines
+
+
+def main():
+    args = sys.argv[1:]
+    if not args:
+        print(__doc__)
+        sys.exit(2)
+    pid = args[0]
+    tier = os.environ.get("VERIF_TIER", "quick")
+    replay = None
+    i = 1
+    while i < len(args):
+        if args[i] == "--tier":
+            tier = args[i + 1]
+            i += 2
+        elif args[i] == "--replay":
+            replay = args[i + 1]
+            i += 2
+        else:
+            i += 1
+    seed = int(os.environ.get("VERIF_SEED", "1"))
+    t0 = time.time()
+    os.makedirs(os.path.join(ROOT, "evidence"), exist_ok=True)
+    top = props.PROPS[pid]
+    subs = [pid] + top.get("sub_checks", [])
+    replay_payload = json.load(open(replay)) if replay else None
+    if replay_payload is not None and replay_payload.get("check") in subs:
+        subs = [replay_payload["check"]]
+
+    exit_code = 0
+    covs = []
+    for sp in subs:
+        rc, cov, cfg, lines = run_one(sp, pid, tier, seed, replay_payload)
+        for ln in lines:
+            log(ln)
+        exit_code = max(exit_code, rc)
+        covs.append((sp, cov, cfg))
+
+    # combined evidence (the parent's keys; sub-checks are merged in and also kept separately)
+    cov = dict(covs[0][1])
+    cov["trusted_base"] = list(cov["trusted_base"])
+    cov["theorems"] = {covs[0][0]: cov["theorems"]}
+    cov["axioms_per_theorem"] = {covs[0][0]: cov["axioms_per_theorem"]}
+    cov["class_histogram"] = {f"{covs[0][0]}: {k}": v for k, v in cov["class_histogram"].items()}
+    assumptions = list(top.get("assumptions", []))
+    for sp, c, cfg in covs[1:]:
+        for key in ("obligations", "discharged", "evaluations", "distinct_nontrivial", "disagreements_checked",
+                    "oracle_failures"):
+            cov[key] += c[key]
+        cov["samples"] = cov["samples"] + c["samples"]
+        cov["trusted_base"] += [t for t in c["trusted_base"] if t not in cov["trusted_base"]]
+        cov["theorems"][sp] = c["theorems"]
+        cov["axioms_per_theorem"][sp] = c["axioms_per_theorem"]
+        cov["known_findings_matched"] = cov["known_findings_matched"] + c["known_findings_matched"]
+        cov["rule"] += f" || sub-check {sp}: " + c["rule"]
+        cov["checker_cmd"] += " ; " + c["checker_cmd"]
+        cov["class_histogram"].update({f"{sp}: {k}": v for k, v in c["class_histogram"].items()})
+        assumptions += [a for a in cfg.get("assumptions", []) if a not in assumptions]
+    cov["trusted_base"] += [
+        "Lean 4.33.0 kernel; axioms admitted: propext, Classical.choice, Quot.sound (audited by #print axioms this run)",
+        "hand-written Lean model tied to /repo by this run's correspondence check (harness/, Drv/, check.py)",
+        "rustc 1.95 x86-64, 64-bit usize, little endian",
+    ]
+    cov["exhaustive"] = False
     ev = {
         "property_id": pid,
         "tier": tier if tier in ("quick", "thorough") else "quick",
         "seed": seed,
-        "level": level,
-        "coverage": {
-            "obligations": pr["obligations"],
-            "discharged": pr["discharged"],
-            "checker_cmd": pr["checker_cmd"],
-            "trusted_base": cfg.get("trusted_base", []) + [
-                "Lean 4.33.0 kernel; axioms admitted: propext, Classical.choice, Quot.sound (audited by #print axioms this run)",
-                "hand-written Lean model tied to /repo by this run's correspondence check (harness/, Drv/, check.py)",
-                "rustc 1.95 x86-64, 64-bit usize, little endian",
-            ],
-            "theorems": pr["theorems"],
-            "axioms_per_theorem": pr["axioms"],
-            "lake_build_s": pr.get("lake_build_s"),
-            "evaluations": len(cases) * len(profiles),
-            "distinct_nontrivial": len(distinct),
-            "rule": cfg.get("rule", ""),
-            "samples": samples,
-            "disagreements_checked": len(disagreements),
-            "oracle_failures": len(oracle),
-            "known_findings_matched": [k["id"] for k, _, _ in known_hits],
-            "profiles": profiles,
-            "class_histogram": dict(sorted(hist.items(), key=lambda kv: -kv[1])[:60]),
-            "explanation": cfg.get("explanation", ""),
-            "exhaustive": False,
-        },
-        "assumptions": cfg.get("assumptions", []),
-        "wall_s": wall,
+        "level": top.get("level", "proof"),
+        "coverage": cov,
+        "assumptions": assumptions,
+        "wall_s": round(time.time() - t0, 2),
         "violations": 1 if exit_code else 0,
     }
     if replay is None:
         with open(os.path.join(ROOT, "evidence", f"{pid}.json"), "w") as f:
             json.dump(ev, f, indent=1)
-    log(f"{pid} {tier}: obligations {pr['discharged']}/{pr['obligations']}, cases {len(cases)} x {len(profiles)} profile(s), "
-        f"disagreements {len(disagreements)}, oracle failures {len(oracle)}, {wall}s -> {'FAIL' if exit_code else 'ok'}")
     if replay and exit_code == 0:
         log("replay: the recorded case no longer fails")
     sys.exit(exit_code)
